@@ -347,6 +347,9 @@ func (f *frame) contractCall(callee *ssa.Function, ct *Contract, c *ssa.CallComm
 	g.st = delta
 	g.oldSt = pre
 	for _, cl := range ct.Ensures {
+		if strings.Contains(cl.Text, "always(") {
+			continue // accumulators belong to the function under verification; a callee's are not assumed here
+		}
 		if err := vc.P.prepare(cl, callee, contractPos(callee)); err != nil {
 			unsup("stale contract: %v", err)
 		}
@@ -362,6 +365,9 @@ func (f *frame) contractCall(callee *ssa.Function, ct *Contract, c *ssa.CallComm
 	for cw := range described {
 		if !vc.watch[cw] {
 			continue
+		}
+		if strings.HasSuffix(cw, "!") {
+			continue // "name!" counts the caller's own (lexical) calls only: the callee's are not folded in
 		}
 		dc := delta.get("G$called$"+cw, SBool)
 		dn := delta.get("G$ncalls$"+cw, SBV64)
